@@ -957,7 +957,7 @@ fn gen_dataset(r: &mut Rng, single: bool) -> (Vec<Q>, Vec<String>) {
 struct Case { docs: Vec<Vec<Q>>, tags: Vec<String>, recipe: Vec<Op>, via_default: bool, sink: Sink, seed: u64, kind: Kind }
 /// the random stream, and the directed streams next to it
 #[derive(Clone, Copy, Debug, PartialEq)]
-enum Kind { Random, Big, Ids, Entries }
+enum Kind { Random, Big, Ids, Entries, Labels }
 
 // ------------------------------------------------------------------ directed stream 1: sizes
 // datasets with MANY values for one (subject, predicate), many subjects, many predicates, many graphs, long lists -- the sizes
@@ -1189,6 +1189,171 @@ fn utf8_mutants(r: &mut Rng, bytes: &[u8]) -> Vec<(String, Vec<u8>)> {
     let mut v = bytes[..start].to_vec(); v.extend_from_slice(bad); v.extend_from_slice(&bytes[start..]); out.push((format!("ill-formed sequence {bad:02X?} inserted at byte {start}"), v));
     out
 }
+// ------------------------------------------------------------------ directed stream 4: blank node labels
+// labels over the WHOLE alphabet sophia's BnodeId accepts (api/src/term/bnode_id.rs: non-ASCII letters, a digit first, '.' inside,
+// '-', '_', U+00B7, combining marks, U+203F/U+2040, zero-width joiners, astral characters), in GROUPS whose members differ only
+// in such characters (or in case, in a leading zero, in the normalisation form, in the length of a long common prefix), several
+// per dataset, in every role a blank node can have: subject, object, graph name, list cell, list item, rdf:type object, compound
+// literal node.  Distinct blank nodes must stay distinct after the round trip (the isomorphism demands it), and the identifiers
+// the document has are exactly "_:" + label (the model: Labels.v).
+const N_LABELS: usize = 180;
+/// a family of labels: frame.0 + (a numeral written with `units`) + frame.1
+struct Scheme { name: &'static str, units: &'static [&'static str], frames: &'static [(&'static str, &'static str)] }
+const SCHEMES: [Scheme; 15] = [
+    Scheme { name: "non-ASCII letters (Latin-1)", units: &["\u{e9}", "\u{e8}", "\u{ea}", "\u{eb}", "\u{e0}", "\u{f6}", "\u{f8}", "\u{ff}"], frames: &[("", ""), ("n", ""), ("", "1"), ("a", "b"), ("g", "")] },
+    Scheme { name: "'_', '-', U+00B7, U+203F, U+2040 inside", units: &["_", "-", "\u{b7}", "\u{203f}", "\u{2040}"], frames: &[("a", "b"), ("a", ""), ("x1", "y"), ("_", "")] },
+    Scheme { name: "'.' inside, next to '_', '-', U+00B7 and nothing", units: &[".", "_", "", "-", "\u{b7}"], frames: &[("a", "b"), ("n1", "2"), ("\u{e9}", "\u{e9}")] },
+    Scheme { name: "combining marks", units: &["\u{300}", "\u{301}", "\u{302}", "\u{308}", "\u{36f}"], frames: &[("e", ""), ("a", "b"), ("1", ""), ("_", "x")] },
+    Scheme { name: "composed and decomposed spellings (NFC / NFD)", units: &["\u{e9}", "e\u{301}", "\u{e8}", "e\u{300}", "e"], frames: &[("", ""), ("caf", ""), ("n", "e")] },
+    Scheme { name: "astral characters", units: &["\u{10000}", "\u{10001}", "\u{1f600}", "\u{20000}", "\u{effff}", "\u{1d49c}"], frames: &[("", ""), ("a", ""), ("a", "b"), ("", "0")] },
+    Scheme { name: "first and last characters of the ranges of PN_CHARS_BASE", units: &["\u{c0}", "\u{d6}", "\u{d8}", "\u{f6}", "\u{f8}", "\u{2ff}", "\u{370}", "\u{37d}", "\u{37f}", "\u{1fff}", "\u{2070}", "\u{218f}", "\u{2c00}", "\u{2fef}", "\u{3001}", "\u{d7ff}", "\u{f900}", "\u{fdcf}", "\u{fdf0}", "\u{fffd}"], frames: &[("", ""), ("a", "b")] },
+    Scheme { name: "zero-width joiners (and nothing)", units: &["\u{200c}", "\u{200d}", ""], frames: &[("a", "b"), ("ab", ""), ("", "a")] },
+    Scheme { name: "letter case", units: &["a", "A", "b", "B"], frames: &[("", ""), ("n", ""), ("x", "y"), ("", "1")] },
+    Scheme { name: "digits first, leading zeros", units: &["0", "1", "7", "00"], frames: &[("", ""), ("", "a"), ("0", ""), ("", "e3")] },
+    Scheme { name: "look-alike letters of other scripts", units: &["a", "\u{430}", "\u{251}", "\u{3b1}", "\u{ff41}"], frames: &[("", ""), ("b", "c"), ("", "1")] },
+    Scheme { name: "characters next to what an escape of them could look like", units: &[".", "_2E", "_2e", "_", "__", "_5F", "-", "_2D", "\u{b7}", "_B7", "u00B7", "_C2_B7"], frames: &[("a", "b"), ("a", "")] },
+    Scheme { name: "long labels that differ at their end", units: &["\u{e9}", "\u{e8}", "\u{b7}", "_", "z", "\u{10000}"], frames: &[("x31", ""), ("x32", "z"), ("x63", ""), ("x64", ""), ("x100", "b"), ("x255", ""), ("x256", ""), ("x1000", "")] },
+    Scheme { name: "mixed classes", units: &["\u{e9}", "_", "\u{b7}", "\u{301}", "\u{10000}", "-", "E", "3", "\u{200d}"], frames: &[("a", "b"), ("a", ""), ("_", "_")] },
+    Scheme { name: "labels that look like generated ones", units: &["0", "1", "2", "\u{661}", "_1", "01"], frames: &[("b", ""), ("_b", ""), ("c", ""), ("g", ""), ("genid", ""), ("b", "\u{e9}")] },
+];
+/// a frame part "x<N>" stands for N times 'x'
+fn frame_part(s: &str) -> String { match s.strip_prefix('x').and_then(|n| n.parse::<usize>().ok()) { Some(n) if n >= 10 => "x".repeat(n), _ => s.to_string() } }
+/// bijective numeration: 0 -> u0, 1 -> u1, ..., k -> u0 u0, ...
+fn numeral(mut i: usize, units: &[&str]) -> String {
+    let k = units.len(); let mut parts: Vec<&str> = vec![];
+    loop { parts.push(units[i % k]); i /= k; if i == 0 { break; } i -= 1; }
+    parts.reverse(); parts.concat()
+}
+fn valid_label(s: &str) -> bool { sophia_api::term::BnodeId::new(s).is_ok() }
+/// the labels the oracle's own reference reader makes up for the list cells it creates
+fn reserved_label(s: &str) -> bool { s.len() > 1 && s.starts_with('L') && s[1..].bytes().all(|b| b.is_ascii_digit()) }
+/// `n` distinct labels of the scheme that BnodeId accepts (fewer when the scheme has no more)
+fn scheme_labels(sch: &Scheme, r: &mut Rng, n: usize, taken: &mut BTreeSet<String>) -> Vec<String> {
+    let (pre, suf) = *r.pick(sch.frames); let (pre, suf) = (frame_part(pre), frame_part(suf));
+    // (now and then the numerals start further: several units per label)
+    let start = if r.chance(1, 4) { r.below(200) } else { 0 };
+    let mut out = vec![];
+    for i in start..start + 4000 {
+        if out.len() >= n { break; }
+        let l = format!("{pre}{}{suf}", numeral(i, sch.units));
+        if valid_label(&l) && !reserved_label(&l) && taken.insert(l.clone()) { out.push(l); }
+    }
+    out
+}
+fn map_labels(t: &ST, m: &BTreeMap<String, String>) -> ST {
+    match t {
+        SimpleTerm::BlankNode(b) => match m.get(b.as_str()) { Some(l) => bnode(l), None => t.clone() },
+        SimpleTerm::Triple(tr) => triple(map_labels(&tr[0], m), map_labels(&tr[1], m), map_labels(&tr[2], m)),
+        _ => t.clone(),
+    }
+}
+fn labels_in(t: &ST, out: &mut Vec<String>) {
+    match t { SimpleTerm::BlankNode(b) => { if !out.iter().any(|x| x == b.as_str()) { out.push(b.as_str().to_string()); } } SimpleTerm::Triple(tr) => for x in tr.iter() { labels_in(x, out); }, _ => {} }
+}
+/// gives the blank nodes of a case (of the random stream, of the sizes stream) labels of one scheme: the same datasets up to the
+/// names of their blank nodes, which now differ only in special characters
+fn rename_case(c: &mut Case, r: &mut Rng) {
+    let mut olds: Vec<String> = vec![];
+    for d in &c.docs { for q in d { for t in &q.0 { labels_in(t, &mut olds); } if let Some(g) = &q.1 { labels_in(g, &mut olds); } } }
+    if olds.is_empty() { return; }
+    let sch = r.pick(&SCHEMES);
+    let mut taken = BTreeSet::new();
+    let news = scheme_labels(sch, r, olds.len(), &mut taken);
+    if news.len() < olds.len() { return; }
+    let m: BTreeMap<String, String> = olds.into_iter().zip(news).collect();
+    for d in c.docs.iter_mut() { for q in d.iter_mut() { for t in q.0.iter_mut() { *t = map_labels(t, &m); } if let Some(g) = q.1.as_mut() { *g = map_labels(g, &m); } } }
+    c.tags.push(format!("labels (blank nodes renamed): {}", sch.name));
+}
+fn gen_labels(r: &mut Rng, k: usize, dir2: bool) -> (Vec<Q>, Vec<String>) {
+    let mut tags: Vec<String> = vec![]; let mut q: Vec<Q> = vec![];
+    let mut taken = BTreeSet::new();
+    let ngroups = if r.chance(1, 3) { 2 } else { 1 };
+    for gi in 0..ngroups {
+        let sch = &SCHEMES[(k + gi * 4) % SCHEMES.len()];
+        let n = match r.below(8) { 0 => r.range(6, 14), 1 => 2, _ => r.range(2, 5) };
+        let labels = scheme_labels(sch, r, n, &mut taken);
+        if labels.len() < 2 { continue; }
+        let n = labels.len();
+        let b: Vec<ST> = labels.iter().map(|l| bnode(l)).collect();
+        let v = |i: usize| plain(&format!("v{gi}-{i}"));
+        let s = iri(&format!("tag:s{gi}"));
+        let (p, nm) = (iri("tag:p"), iri("tag:name"));
+        let g: Option<ST> = match r.below(5) { 0 => Some(iri("tag:g")), 1 => Some(b[n - 1].clone()), _ => None };
+        tags.push(format!("labels: {}", sch.name));
+        let role = (k / SCHEMES.len() + gi * 3) % 9;
+        let mut add = |s: &ST, p: &ST, o: &ST, g: &Option<ST>| q.push(([s.clone(), p.clone(), o.clone()], g.clone()));
+        let list = |cells: &[ST], items: &[ST], g: &Option<ST>, add: &mut dyn FnMut(&ST, &ST, &ST, &Option<ST>)| {
+            for i in 0..cells.len() { add(&cells[i], &rdf("first"), &items[i], g); add(&cells[i], &rdf("rest"), &cells.get(i + 1).cloned().unwrap_or_else(|| rdf("nil")), g); }
+        };
+        match role {
+            0 => { tags.push("labels: as subjects".into()); for i in 0..n { add(&b[i], &nm, &v(i), &g); } add(&s, &iri("tag:knows"), &b[0], &g); }
+            1 => { tags.push("labels: as objects only".into()); for i in 0..n { add(&s, &p, &b[i], &g); if i % 2 == 1 { add(&iri(&format!("tag:t{i}")), &p, &b[i], &g); } } }
+            2 => { tags.push("labels: as graph names".into()); for i in 0..n { add(&s, &p, &v(i), &Some(b[i].clone())); if i % 2 == 0 { add(&b[i], &iri("tag:label"), &v(i), &None); } } }
+            3 => { tags.push("labels: as the cells of one list".into()); let items: Vec<ST> = (0..n).map(&v).collect(); list(&b, &items, &g, &mut add); add(&s, &p, &b[0], &g); }
+            4 => { tags.push("labels: as the items of a list".into()); let cells: Vec<ST> = (0..n).map(|i| bnode(&format!("c{gi}x{i}"))).collect(); list(&cells, &b, &g, &mut add); add(&s, &p, &cells[0], &g); for i in 0..n { add(&b[i], &nm, &v(i), &g); } }
+            5 => { tags.push("labels: one list per label, in the graph named by the next label".into());
+                   for i in 0..n { let h = Some(b[(i + 1) % n].clone()); list(&b[i..=i], &[v(i)], &h, &mut add); add(&s, &p, &b[i], &h); } }
+            6 => { tags.push("labels: as rdf:type objects".into()); for i in 0..n { add(&s, &rdf("type"), &b[i], &g); if i % 2 == 0 { add(&b[i], &nm, &v(i), &g); } } }
+            7 => { tags.push(format!("labels: as compound literal nodes{}", if dir2 { " (rdf_direction = compound-literal)" } else { "" }));
+                   for i in 0..n { add(&b[i], &rdf("value"), &v(i), &g); add(&b[i], &rdf("direction"), &plain(if i % 2 == 0 { "ltr" } else { "rtl" }), &g); add(&s, &p, &b[i], &g); } }
+            _ => { tags.push("labels: in every role by turns".into());
+                   for i in 0..n { let nx = b[(i + 1) % n].clone();
+                       match (i + k) % 6 {
+                           0 => { add(&b[i], &nm, &v(i), &g); add(&b[i], &iri("tag:next"), &nx, &g); }
+                           1 => add(&s, &p, &b[i], &g),
+                           2 => { add(&s, &p, &v(i), &Some(b[i].clone())); add(&b[i], &nm, &v(i), &Some(b[i].clone())); }
+                           3 => { add(&nx, &rdf("type"), &b[i], &g); }
+                           4 => { add(&b[i], &nm, &v(i), &Some(nx.clone())); add(&b[i], &nm, &v(i), &None); }
+                           _ => { list(&b[i..=i], &[nx.clone()], &g, &mut add); add(&s, &iri("tag:q"), &b[i], &g); }
+                       } }
+                   // a blank node is not a property: such a quad is one of those JSON-LD cannot express
+                   if r.chance(1, 3) { add(&s, &b[0], &v(0), &g); } }
+        }
+    }
+    if r.chance(1, 2) { shuffle(&mut q, r); }
+    (dedup(&q), tags)
+}
+fn labels_case(r: &mut Rng, k: usize) -> Case {
+    let aim = Opts { mode10: r.chance(1, 3), use_rdf_type: r.chance(1, 3), dir: [0, 0, 1, 2, 2][r.below(5)], spaces: if r.chance(1, 4) { 2 } else { 0 }, native: r.chance(1, 8), base: None, ctr: true };
+    let mut recipe = if r.chance(1, 2) { recipe_of(&aim) } else { gen_recipe(r) };
+    for op in recipe_of(&aim) { if r.chance(2, 3) { let at = r.below(recipe.len() + 1); recipe.insert(at, op); } }
+    let (quads, tags) = gen_labels(r, k, Expect::of(&recipe).dir == 2);
+    let sink = match r.below(9) { 0..=3 => Sink::Stringifier, 4 => Sink::VecWriter, 5 => Sink::MutVec, 6 | 7 => Sink::Jsonifier, _ => Sink::Chunked };
+    Case { docs: vec![quads], tags, recipe, via_default: r.chance(1, 2), sink, seed: r.next(), kind: Kind::Labels }
+}
+/// the blank node labels of the expressible quads of the datasets, and the identifiers of blank form the documents have
+/// ('@id' and '@type' values, property keys), for the model (Labels.v: labels_ok); `all`: no label may be missing from the
+/// documents (true when no blank node can have been compacted away: no rdf:first / rdf:rest / rdf:direction in the datasets)
+fn coq_labels(docs: &[Vec<Q>], texts: &[&String]) -> String {
+    let mut ins: Vec<String> = vec![]; let mut all = true;
+    for d in docs { for q in d { if expressible(q) { for t in &q.0 { labels_in(t, &mut ins); } if let Some(g) = &q.1 { labels_in(g, &mut ins); }
+        if q.0[1] == rdf("first") || q.0[1] == rdf("rest") || q.0[1] == rdf("direction") { all = false; } } } }
+    let mut obs = BTreeSet::new();
+    for t in texts { if let Ok(j) = read_json(t) { id_strings(&j, &mut obs); } }
+    if texts.len() != docs.len() { all = false; }
+    let obs: Vec<String> = obs.into_iter().filter(|s| s.starts_with("_:")).collect();
+    format!("labels_ok {} {} {}", coq_bool(all), coq_list(ins.iter().map(|s| coq_str(s))), coq_list(obs.iter().map(|s| coq_str(s))))
+}
+/// KNOWN (third-party, outside /repo): the json-ld crate's blank node identifiers (rdf-types 0.15.4, BlankId) have no '.', so
+/// that a document with the identifier "_:a.b" is not read back as written.  True when a document has such an identifier
+fn doc_has_dotted_blank_id(txt: &str) -> bool {
+    let mut obs = BTreeSet::new();
+    if let Ok(j) = read_json(txt) { id_strings(&j, &mut obs); }
+    obs.iter().any(|s| s.starts_with("_:") && s.contains('.'))
+}
+/// one label alone, through the validator of the toolkit and through the parser: is it a label (BnodeId::new), and does the
+/// parser read the identifier "_:" + label back as a blank node (the document has one quad, with that subject and an IRI object)?
+/// For the model (Labels.v: label_ok).
+fn label_probe(l: &str) -> (bool, Option<bool>) {
+    let valid = valid_label(l);
+    if !valid { return (false, None); }
+    let txt = format!("[{{\"@id\":{},\"tag:p\":[{{\"@id\":\"tag:o\"}}]}}]", json_str(&format!("_:{l}")));
+    let o = Opts { mode10: false, use_rdf_type: false, dir: 0, spaces: 0, native: false, base: None, ctr: true };
+    let mut bad = vec![];
+    let kept = match parse_back(&txt, &o, None, &Entry::Str, &mut bad) { Ok(b) => b.len() == 1 && matches!(b[0].0[0], SimpleTerm::BlankNode(_)), Err(_) => false };
+    (true, Some(kept))
+}
+
 /// the recipe of the canonical setter order for given settings
 fn recipe_of(o: &Opts) -> Vec<Op> {
     let mut v = vec![Op::Mode(o.mode10), Op::RdfType(o.use_rdf_type), Op::Native(o.native), Op::Spaces(o.spaces), Op::Dir(o.dir)];
@@ -1217,6 +1382,8 @@ fn directed_case(idx: usize, r: &mut Rng) -> Option<Case> {
     if k < N_IDS { return Some(ids_case(r, k)); }
     let k = k - N_IDS;
     if k < N_ENTRIES { return Some(entries_case(r, k)); }
+    let k = k - N_ENTRIES;
+    if k < N_LABELS { return Some(labels_case(r, k)); }
     None
 }
 /// compact description of the bytes of a document for the model: segments (pattern, number of repetitions)
@@ -1357,7 +1524,7 @@ fn iso(expected: &Vec<Q>, back: &Vec<Q>) -> bool { isomorphic_datasets(expected,
 fn has_bad_json(quads: &[Q]) -> bool {
     quads.iter().any(|q| expressible(q) && matches!(&q.0[2], SimpleTerm::LiteralDatatype(l, d) if d.as_str() == format!("{RDF}JSON") && read_json(l).is_err()))
 }
-fn oracle(quads: &[Q], o: &Opts, ser: &Result<String, String>, how: Option<&ParseHow>, entry: &Entry, problems: &mut Vec<String>) -> Option<String> {
+fn oracle(quads: &[Q], o: &Opts, ser: &Result<String, String>, how: Option<&ParseHow>, entry: &Entry, problems: &mut Vec<String>, notes: &mut Vec<String>) -> Option<String> {
     let mut expected: Vec<Q> = quads.iter().filter(|q| expressible(q)).cloned().collect();
     if has_bad_json(quads) {
         return match ser { Err(e) if e.contains("invalid JSON literal") => None, Err(e) => Some(format!("SERIALIZER FAILS with an unexpected error on an ill-formed rdf:JSON literal: {e}")), Ok(t) => Some(format!("SERIALIZER ACCEPTS an ill-formed rdf:JSON literal: {}", t.split_whitespace().collect::<Vec<_>>().join(" "))) };
@@ -1371,6 +1538,21 @@ fn oracle(quads: &[Q], o: &Opts, ser: &Result<String, String>, how: Option<&Pars
         Ok(back) => dedup(back),
     };
     if !iso(&expected, &ref_back) { return Some(format!("SERIALIZER LOSES INFORMATION (reference reader): read back {} quads instead of {}{}: [{}]; document: {flat}", ref_back.len(), expected.len(), missing_note(&expected, &ref_back), clip(&show_ds(&ref_back)))); }
+    // KNOWN (third-party parser, outside /repo): a blank node identifier with a '.' ("_:a.b", a legal BnodeId that the serializer
+    // writes as it is and the reference reader reads back) is not a blank node identifier for the json-ld crate.  Only the
+    // documents that have such an identifier are excluded from the comparison with sophia's parser, and counted; the parser is
+    // still run (it must not panic) and what it does with them is counted too
+    if doc_has_dotted_blank_id(txt) {
+        let mut ignored = vec![];
+        let got = parse_back(txt, o, how, entry, &mut ignored).map(|b| if o.native { dedup(&b.iter().map(native_q).collect::<Vec<_>>()) } else { dedup(&b) });
+        notes.push("known:documents with a blank node identifier that has a '.' (\"_:a.b\"): excluded from the comparison with sophia's parser".into());
+        return match got {
+            Err(e) if e.starts_with("PANIC") => Some(format!("PARSER PANICS on a document with the blank node identifier of a label with '.': {e}; document: {flat}")),
+            Err(e) => { notes.push("known:... the parser rejects such a document".into()); Some(format!("[bnode-label-with-dot-not-read-back] the serializer writes the blank node identifier of a label with '.' as it is, and sophia's JSON-LD parser (json-ld crate: blank identifiers have no '.') rejects the document: {}; document: {flat}", e)) }
+            Ok(back) if iso(&expected, &back) => { notes.push("known:... the parser reads such a document back as expected".into()); None }
+            Ok(back) => { notes.push(format!("known:... the parser reads such a document back differently ({})", if back.len() < expected.len() { "fewer quads" } else if back.len() > expected.len() { "more quads" } else { "as many quads" })); Some(format!("[bnode-label-with-dot-not-read-back] the serializer writes the blank node identifier of a label with '.' as it is (e.g. \"_:a.b\"), and sophia's JSON-LD parser (json-ld crate: blank identifiers have no '.') reads it back as a relative IRI, not as a blank node: parsed back {} quads, expected {}; document: {flat}", back.len(), expected.len())) }
+        };
+    }
     match parse_back(txt, o, how, entry, problems).map(|b| if o.native { dedup(&b.iter().map(native_q).collect::<Vec<_>>()) } else { dedup(&b) }) {
         Err(e) => Some(format!("PARSER REJECTS a document the reference reader round-trips (entry point {}): {e}; document: {flat}", entry.show())),
         Ok(back) if !iso(&expected, &back) => {
@@ -1551,7 +1733,7 @@ fn main() {
     let single = a.rest.iter().any(|x| x == "--single");
     let verbose = a.rest.iter().any(|x| x == "--verbose");
     let mut sum = Summary::default();
-    sum.rule = "case = (1..3 datasets given to ONE serializer, each of up to ~30 quads = noise quads + 1..3 shapes among: lists (well-formed, unreferenced head, shared, branching, cyclic through rdf:rest or rdf:first, typed rdf:List, extra property, split across graphs, cell reused as subject/graph name/cell/item elsewhere, copied in two graphs, nested, rdf:nil items), rdf:type with IRI/blank/literal objects, compound-literal shapes, i18n datatypes, rdf:JSON literals (well- and ill-formed), quads JSON-LD cannot express; options = a recipe of 0..17 builder calls among all the with_* methods of JsonLdOptions in random order, which fixes processing mode x use_rdf_type x rdf_direction x indentation x use_native_types; sink = stringifier / Vec / &mut Vec / writer taking 1..5 bytes per call with interruptions / writer failing after a byte budget / jsonifier / failing quad source); the document is read back through a random entry point of the parser (parse_str; parse on a slice, Cursor, BufReader of 8 KiB or small capacity, BufRead handing out 1..7 bytes per fill_buf, BufReader over a slow interrupted Read, Chain of two slices cut inside a character, VecDeque). Directed streams after the witnesses: (1) sizes: 31..257 values for one (subject, predicate) / subjects / predicates / graphs / list items, with lookalike values (same text, different language, datatype or kind) before, after or among the others; (2) a base IRI out of 12 on serializer and parser, compactToRelative default/true/false, the other options at random, IRIs special under the base (remainder of keyword form, empty, query/fragment only, first segment with a colon, dot segments, not normalised) in subject / object / graph name / rdf:type / predicate / list item position; (3) documents of 9..140 KiB of 2-, 3- and 4-byte characters with a character across a chosen multiple of 4096/8192, read back through EVERY entry point, and invalid UTF-8 variants that every entry point must refuse; non-trivial = a directed case, or the first dataset has an rdf:rest or rdf:direction quad, or at least two graphs; distinct = distinct (datasets, settings)".into();
+    sum.rule = "case = (1..3 datasets given to ONE serializer, each of up to ~30 quads = noise quads + 1..3 shapes among: lists (well-formed, unreferenced head, shared, branching, cyclic through rdf:rest or rdf:first, typed rdf:List, extra property, split across graphs, cell reused as subject/graph name/cell/item elsewhere, copied in two graphs, nested, rdf:nil items), rdf:type with IRI/blank/literal objects, compound-literal shapes, i18n datatypes, rdf:JSON literals (well- and ill-formed), quads JSON-LD cannot express; options = a recipe of 0..17 builder calls among all the with_* methods of JsonLdOptions in random order, which fixes processing mode x use_rdf_type x rdf_direction x indentation x use_native_types; sink = stringifier / Vec / &mut Vec / writer taking 1..5 bytes per call with interruptions / writer failing after a byte budget / jsonifier / failing quad source); the document is read back through a random entry point of the parser (parse_str; parse on a slice, Cursor, BufReader of 8 KiB or small capacity, BufRead handing out 1..7 bytes per fill_buf, BufReader over a slow interrupted Read, Chain of two slices cut inside a character, VecDeque). Directed streams after the witnesses: (1) sizes: 31..257 values for one (subject, predicate) / subjects / predicates / graphs / list items, with lookalike values (same text, different language, datatype or kind) before, after or among the others; (2) a base IRI out of 12 on serializer and parser, compactToRelative default/true/false, the other options at random, IRIs special under the base (remainder of keyword form, empty, query/fragment only, first segment with a colon, dot segments, not normalised) in subject / object / graph name / rdf:type / predicate / list item position; (3) documents of 9..140 KiB of 2-, 3- and 4-byte characters with a character across a chosen multiple of 4096/8192, read back through EVERY entry point, and invalid UTF-8 variants that every entry point must refuse; (4) groups of 2..14 blank node labels of one family out of 15 (non-ASCII letters, '_' '-' U+00B7 U+203F U+2040, '.', combining marks, NFC/NFD spellings, astral characters, the ends of the ranges of PN_CHARS_BASE, zero-width joiners, letter case, leading digits and zeros, look-alike letters, escape look-alikes, long common prefixes of 31..1000 characters, mixed, labels like generated ones) that differ only in such characters, as subjects / objects only / graph names / cells of one list / list items / one list per label in the graph named by the next / rdf:type objects / compound literal nodes / every role by turns; the same families rename the blank nodes of a third of the cases of the random stream and of stream (1); non-trivial = a directed case, or the first dataset has an rdf:rest or rdf:direction quad, or at least two graphs; distinct = distinct (datasets, settings)".into();
     let base = Rng::new(a.seed);
     let range: Vec<usize> = match a.only { Some(i) => vec![i], None => (0..a.n).collect() };
     let mut by_tag: BTreeMap<String, (u64, u64)> = BTreeMap::new();
@@ -1587,7 +1769,11 @@ fn main() {
     }
     for idx in range {
         let mut r = base.fork(idx as u64);
-        let case = witness_case(idx).or_else(|| directed_case(idx, &mut r)).unwrap_or_else(|| gen_case(&mut r, single));
+        let mut case = witness_case(idx).or_else(|| directed_case(idx, &mut r)).unwrap_or_else(|| gen_case(&mut r, single));
+        // blank node labels: a third of the cases of the random stream and of the sizes stream get the labels of one scheme
+        // (a generator of its own: the cases are otherwise the ones they were)
+        if idx >= N_WITNESS && matches!(case.kind, Kind::Random | Kind::Big) { let mut lr = base.fork(idx as u64).fork(0x1abe15); if lr.chance(1, 3) { rename_case(&mut case, &mut lr); } }
+        let case = case;
         let expect = Expect::of(&case.recipe);
         let opts = expect.opts();
         let tags = case.tags.clone();
@@ -1598,22 +1784,38 @@ fn main() {
         // the entry point of the parser through which the documents are read back
         let text_of = |i: usize| -> Result<String, String> { match &under[i] { Some(t) => Ok(t.clone()), None => refs[i].clone() } };
         let entry = gen_entry(&mut r, text_of(0).as_deref().unwrap_or("").as_bytes());
-        let mut res: Option<String> = None;
+        let mut res: Option<String> = None; let mut notes: Vec<String> = vec![];
         for (i, d) in case.docs.iter().enumerate() {
             let ser: Result<String, String> = text_of(i);
-            if let Some(f) = oracle(d, &opts, &ser, how.as_ref(), &entry, &mut problems) { res.get_or_insert(if case.docs.len() > 1 { format!("{f}; dataset {i}: {}", clip(&show_ds(d))) } else { f }); }
+            if let Some(f) = oracle(d, &opts, &ser, how.as_ref(), &entry, &mut problems, &mut notes) { res.get_or_insert(if case.docs.len() > 1 { format!("{f}; dataset {i}: {}", clip(&show_ds(d))) } else { f }); }
         }
         let mut wide: Vec<String> = vec![];
         if case.kind == Kind::Entries { if let Ok(t) = text_of(0) { let mut dist = vec![]; let (fails, coq) = entries_sweep(&mut r, &t, &opts, &case.docs[0], &mut dist); problems.extend(fails); wide.extend(coq); for k in dist { sum.bump(&k); } } }
         if case.kind == Kind::Big { if let Ok(t) = text_of(0) { match coq_values(&case.docs[0], &t) { Some(v) => { wide.push(v); sum.bump("sizes:values of the largest (subject, predicate) counted by the model"); } None => sum.bump("sizes:the largest (subject, predicate) is not a node of the document (list cell)") } } }
         if case.kind != Kind::Random || opts.base.is_some() { let texts: Vec<String> = (0..case.docs.len()).filter_map(|i| text_of(i).ok()).collect(); wide.push(coq_ids(&case.docs, &texts.iter().collect::<Vec<_>>(), &opts)); }
+        // the identifiers of the blank nodes, for the model (every case); the labels one by one (the cases of the labels stream)
+        { let texts: Vec<String> = (0..case.docs.len()).filter_map(|i| text_of(i).ok()).collect(); wide.push(coq_labels(&case.docs, &texts.iter().collect::<Vec<_>>())); }
+        if case.kind == Kind::Labels {
+            let mut ls: Vec<String> = vec![]; for q in &case.docs[0] { for t in &q.0 { labels_in(t, &mut ls); } if let Some(g) = &q.1 { labels_in(g, &mut ls); } }
+            ls.truncate(5);
+            // and strings next to them that may or may not be labels
+            for _ in 0..3 { if let Some(l) = ls.first().cloned() { let c = r.ps(&[".", "-", "\u{b7}", "\u{301}", "_", ":", " ", "\u{d7}", "\u{f7}", "\u{37e}", "\u{2000}", "\u{3000}", "\u{fffe}", "\u{f0000}", "%", "0", "\u{203f}"]);
+                ls.push(match r.below(4) { 0 => format!("{c}{l}"), 1 => format!("{l}{c}"), 2 => format!("{l}{c}{c}{l}"), _ => format!("{l}{c}{l}") }); } }
+            if r.chance(1, 20) { ls.push(String::new()); }
+            for l in &ls {
+                let (valid, kept) = label_probe(l);
+                sum.bump(&format!("labels:one label alone: {}", match (valid, kept) { (false, _) => "not a label for BnodeId", (true, Some(true)) => "a label, read back as a blank node by the parser", _ => "a label, NOT read back as a blank node by the parser" }));
+                wide.push(format!("label_ok {} {} {}", coq_str(l), coq_bool(valid), coq_bool(kept.unwrap_or(false))));
+            }
+        }
+        for n in &notes { sum.bump(n); }
         problems.sort(); problems.dedup();
         sum.evaluations += 1;
         let quads = &case.docs[0];
         let all_ds = case.docs.iter().map(|d| show_ds(d)).collect::<Vec<_>>().join(" ||| ");
         let graphs: BTreeSet<String> = quads.iter().map(|q| q.1.as_ref().map(key_t).unwrap_or_default()).collect();
         let nontrivial = case.kind != Kind::Random || graphs.len() >= 2 || quads.iter().any(|q| q.0[1] == rdf("rest") || q.0[1] == rdf("direction"));
-        sum.bump(&format!("stream:{}", match case.kind { Kind::Random => "random (and the replayed witnesses)", Kind::Big => "directed: sizes and lookalike values", Kind::Ids => "directed: base IRI / compactToRelative and the IRIs special under them", Kind::Entries => "directed: large non-ASCII documents through every parser entry point" }));
+        sum.bump(&format!("stream:{}", match case.kind { Kind::Random => "random (and the replayed witnesses)", Kind::Big => "directed: sizes and lookalike values", Kind::Ids => "directed: base IRI / compactToRelative and the IRIs special under them", Kind::Entries => "directed: large non-ASCII documents through every parser entry point", Kind::Labels => "directed: groups of blank node labels that differ only in special characters" }));
         sum.bump(&format!("parser entry point of the round trip:{}", entry.kind()));
         if case.kind == Kind::Big { sum.bump(&format!("sizes:dataset of {} quads", match quads.len() { 0..=40 => "up to 40", 41..=80 => "41..80", 81..=160 => "81..160", 161..=320 => "161..320", _ => "more than 320" })); }
         if nontrivial && seen.insert(format!("{:?}{}", opts, all_ds)) { sum.distinct_nontrivial += 1; }
@@ -1664,12 +1866,15 @@ fn main() {
                 (Err(e), _, _) | (_, Err(e), _) | (_, _, Err(e)) => format!("false (* no document to compare: {} *)", e.replace("*)", "* )").replace("(*", "( *")),
             }
         };
-        if a.only.is_some() { println!("CASE {idx}: {context}\n => oracle {:?} {:?}\nreference run: {:?}\nrun under test: {:?}\nCoq: {body}", res, problems, refs, under); }
+        if a.only.is_some() {
+            println!("CASE {idx}: {context}\n => oracle {:?} {:?}\nreference run: {:?}\nrun under test: {:?}\nCoq: {body}", res, problems, refs, under);
+            if let Ok(t) = text_of(0) { let mut ignored = vec![]; println!("sophia's parser ({}) reads the first document back as: {}", entry.show(), match parse_back(&t, &opts, how.as_ref(), &entry, &mut ignored) { Ok(b) => show_ds(&b), Err(e) => e }); }
+        }
         cases.push((idx, body));
     }
     for (t, (n, f)) in &by_tag { sum.bump_by(&format!("shape:{t}"), *n); if verbose { println!("{f:5}/{n:5} {t}"); } }
     if a.only.is_none() {
-        sum.shards = write_shards(&a.out, "From Sophia.C12 Require Import Model Calls Wide.\n", &cases, a.shards);
+        sum.shards = write_shards(&a.out, "From Sophia.C12 Require Import Model Calls Wide Labels.\n", &cases, a.shards);
         sum.extra.push(("coq_cases".into(), cases.len().to_string()));
         std::fs::write(format!("{}/summary.json", a.out), sum.to_json()).unwrap();
     }
